@@ -26,7 +26,10 @@ def main():
     for tc in tree.iter('testcase'):
         bad = any(ch.tag in ('failure', 'error', 'skipped') for ch in tc)
         if not bad:
-            passed.add(f"{tc.get('classname')}::{tc.get('name')}")
+            name = f"{tc.get('classname')}::{tc.get('name')}"
+            if src != '/repo':
+                name = name.replace(src.rstrip('/'), '/repo')   # some test ids embed the checkout path
+            passed.add(name)
     missing = sorted(stable - passed)
     print(f"passed={len(passed)} stable={len(stable)} missing={len(missing)}")
     for m in missing[:40]:
